@@ -40,13 +40,13 @@ ASSUMPTIONS = [
     "rates are observed with int concentrations and int/Fraction rate constants (exact arithmetic in the library)",
 ]
 
-QUICK = [("build_q", ["GenSubstance", "GenReaction", "Build", "GenFinish"], 160, 12),
-         ("inact_q", ["GenReaction", "GenReverse", "Build"], 160, 14),
-         ("third_q", ["GenReaction", "Build"], 160, 9),
-         ("frac_q", ["GenReaction", "Build"], 120, 4)]
+QUICK = [("build_q", ["GenSubstance", "GenReaction", "Build", "GenFinish"], 120, 12),
+         ("inact_q", ["GenReaction", "GenReverse", "Build"], 120, 14),
+         ("third_q", ["GenReaction", "Build"], 100, 9),
+         ("frac_q", ["GenReaction", "Build"], 80, 4)]
 THOROUGH = [("build_t", [], None, 400), ("inact_t", [], None, 250), ("build3_t", [], None, 150),
             ("third_t", [], 30000, 300), ("frac_t", [], 30000, 300)]
-HIST_QUICK = [("hist_nh_q", ["GenQuery", "GenReorder"], 36)]
+HIST_QUICK = [("hist_nh_q", ["GenQuery", "GenReorder"], 24)]
 HIST_THOROUGH = [("hist_nh_t", [], 400), ("hist_per_t", [], 400), ("hist_w_t", [], 400), ("hist_nox_t", [], 500)]
 DYN_QUICK = [("dyn_q", ["GenSetState", "GenEulerStep", "GenSafeStep"])]
 DYN_THOROUGH = [("dyn_t", [])]
@@ -585,7 +585,7 @@ def run(ctx):
     ctx.exhaustive = not ctx.quick
 
     # code -> spec: seeded formula-defined systems beyond the pool
-    n = 120 if ctx.quick else 6000
+    n = 100 if ctx.quick else 6000
     items = []
     for i in range(n):
         names, rx = seeded_system(ctx.rng)
